@@ -1,16 +1,24 @@
 import os, re, sys
-from vf import Check, Stream, sh, VERIF, BUILD, log
+from vf import Check, Stream, sh, VERIF, BUILD, log, run_exe_on_cases
 
 WRAPS = ['pthread_mutex_lock', 'pthread_mutex_trylock', 'pthread_mutex_unlock', 'pthread_cond_wait',
          'pthread_cond_timedwait', 'pthread_cond_signal', 'pthread_cond_broadcast', 'sem_wait', 'sem_trywait',
          'sem_timedwait', 'sem_post', 'pthread_create', 'pthread_join',
-         'pthread_mutex_init', 'pthread_mutex_destroy', 'pthread_cond_init', 'pthread_cond_destroy', 'sem_init', 'sem_destroy']
+         'pthread_mutex_init', 'pthread_mutex_destroy', 'pthread_cond_init', 'pthread_cond_destroy', 'sem_init', 'sem_destroy',
+         # timed / clock variants the library does not use today: wrapped so that a rewrite onto them still runs on the virtual
+         # primitives (a call that reached the real glibc object would be judged against an object no virtual thread holds)
+         'pthread_mutex_timedlock', 'pthread_mutex_clocklock', 'pthread_cond_clockwait', 'sem_clockwait',
+         'pthread_tryjoin_np', 'pthread_timedjoin_np', 'pthread_clockjoin_np']
 
 BASES = [None, 1700000000999000000, 1700000000000000000, 1799999999999999999, 1700000000500000001, 999999999]
 MS = [0, 1, 2, 10, 250, 999, 1000, 1001, 1999, 60000]
+# integer-width boundaries: initial semaphore counts (uint in the library, sem_init takes unsigned, SEM_VALUE_MAX = 2^31-1) and
+# results of thread functions (uint carried through a void*): just below / at / above 2^8 and 2^16, 2^31, 2^32-1, low byte(s) zero
+SEM_BIG = [255, 256, 257, 65535, 65536, 65537, 16777216, 2147483647]
+RES = [0, 1, 255, 256, 257, 1000, 65535, 65536, 65792, 2147483647, 2147483648, 2654435769, 4000000256, 4294967040, 4294967295]
 
 
-# ---- scenario templates: (n, sig0, sem0, auto, scripts) --------------------------------------------------
+# ---- scenario templates: (n, sig0, sem0, auto, scripts[, {tid: result of the thread function}]) --------------------
 def templates(rng):
     T = []
     ms = lambda: rng.choice(MS)
@@ -64,13 +72,19 @@ def templates(rng):
               (3, 0, s0, 1, [['semwaitt=%d' % ms()], ['semtry', 'semsignal'], ['semwait']]),
               (4, 0, s0, 1, [['semwait', 'semsignal'], ['semwaitt=%d' % ms()], ['semtry'], ['semsignal']]),
               (2, 0, s0, 1, [['semtry', 'semtry', 'semwaitt=%d' % ms()], ['semsignal', 'semsignal']])]
-    # Thread
-    T += [(2, 0, 0, 0, [['start=1', 'join=1'], ['csenter']]),
-          (3, 0, 0, 0, [['start=1', 'start=2', 'join=2', 'join=1'], ['lock', 'unlock'], ['lock', 'unlock']]),
-          (3, 0, 0, 0, [['start=1', 'start=1', 'join=1', 'join=1', 'start=2'], ['sigset'], []]),
-          (3, 0, 1, 0, [['start=1', 'semwait', 'join=1', 'join=2'], ['start=2', 'semsignal', 'join=2'], ['semwait']]),
-          (2, 0, 0, 0, [['join=1', 'start=1', 'sigwait', 'join=1'], ['sigset']]),
-          (4, 0, 0, 0, [['start=1', 'start=2', 'start=3', 'join=1', 'join=2', 'join=3'], ['monlock', 'monwait', 'monunlock'], ['monset'], ['monset']])]
+    for s0 in rng.sample(SEM_BIG, 4):
+        T += [(2, 0, s0, 1, [['semwait', 'semtry', 'semwait'], ['semsignal', 'semwaitt=%d' % ms()]]),
+              (3, 0, s0, 1, [['semwait'], ['semwaitt=%d' % ms()], ['semtry', 'semsignal', 'semwait']])]
+    # Thread (each Thread object is joined by one thread only: two pthread_join calls on one thread are undefined in POSIX);
+    # the results of the thread functions are given by the case
+    res = lambda: {t: rng.choice(RES) for t in (1, 2, 3)}
+    T += [(2, 0, 0, 0, [['start=1', 'join=1'], ['csenter']], res()),
+          (2, 0, 0, 0, [['start=1', 'join=1'], []], res()),
+          (3, 0, 0, 0, [['start=1', 'start=2', 'join=2', 'join=1'], ['lock', 'unlock'], ['lock', 'unlock']], res()),
+          (3, 0, 0, 0, [['start=1', 'start=1', 'join=1', 'join=1', 'start=2'], ['sigset'], []], res()),
+          (3, 0, 1, 0, [['start=1', 'semwait', 'join=1'], ['start=2', 'semsignal', 'join=2'], ['semwait']], res()),
+          (2, 0, 0, 0, [['join=1', 'start=1', 'sigwait', 'join=1'], ['sigset']], res()),
+          (4, 0, 0, 0, [['start=1', 'start=2', 'start=3', 'join=1', 'join=2', 'join=3'], ['monlock', 'monwait', 'monunlock'], ['monset'], ['monset']], res())]
     return T
 
 
@@ -107,17 +121,24 @@ def random_scenario(rng):
             ops += ['monunlock'] * depth
         scripts.append(ops)
     auto = 1
+    results = {}
     if rng.random() < 0.25 and n >= 2:
         auto = 0
         scripts[0] = ['start=%d' % c for c in range(1, n)] + scripts[0] + ['join=%d' % c for c in range(1, n) if rng.random() < 0.8]
-    return (n, rng.choice([0, 0, 1]), rng.choice([0, 0, 1, 2]), auto, scripts)
+        results = {c: rng.choice(RES) for c in range(1, n) if rng.random() < 0.8}
+    sem0 = rng.choice(SEM_BIG) if rng.random() < 0.15 else rng.choice([0, 0, 1, 2])
+    return (n, rng.choice([0, 0, 1]), sem0, auto, scripts, results)
 
 
 def case_head(tpl, base):
-    n, sig0, sem0, auto, scripts = tpl
+    n, sig0, sem0, auto, scripts = tpl[:5]
+    results = tpl[5] if len(tpl) > 5 else {}
     lines = ['@%d %d %d %d' % (n, sig0, sem0, auto)]
     for t, sc in enumerate(scripts):
         lines.append(('t %d ' % t + ' '.join(sc)).rstrip())
+    for t in sorted(results):
+        if t < n:
+            lines.append('r %d %d' % (t, results[t]))
     if base is not None:
         lines.append('m clock %d' % base)
     return lines
@@ -275,7 +296,12 @@ class C11(Check):
             ((2, 0, 0, 1, [['lock', 'unlock'], ['trylock', 'lock', 'unlock']]), None, (40, 0, 0)),
             ((2, 0, 1, 1, [['semwait', 'semwait'], ['semsignal']]), None, (40, 1, 0)),
             ((2, 0, 0, 1, [['semwaitt=999'], ['semsignal']]), BASES[1], (40, 1, 1)),
-            ((2, 0, 0, 0, [['start=1', 'join=1'], ['sigset']]), None, (40, 0, 0)),
+            # every order of creator and child around pthread_create (child first: the creator stands between the return of
+            # pthread_create and its own code after it), both forms of Thread::start, results at the integer-width boundaries
+            ((2, 0, 0, 0, [['start=1', 'join=1'], ['sigset']], {1: 4000000256}), None, (40, 0, 0)),
+            ((3, 0, 0, 0, [['start=2', 'start=1', 'join=1', 'join=2'], [], []], {1: 65536, 2: 2147483648}), None, (40, 0, 0)),
+            ((2, 0, 256, 1, [['semwait', 'semwait'], ['semsignal']]), None, (40, 1, 0)),
+            ((2, 0, 65536, 1, [['semwaitt=999', 'semtry'], ['semtry']]), BASES[1], (40, 0, 1)),
         ]
         if thorough:
             scopes += [
@@ -363,12 +389,12 @@ class C11(Check):
                 dls = [l.split()[1:] for l in c if l.startswith('dl ')]
                 got = [l.split() for l in obs if l.startswith('dl ')]
                 for k, g in enumerate(got):
-                    if k // 3 < len(dls) and len(g) == 4:
+                    if k // 3 < len(dls) and len(g) >= 4:
                         fh.write('dl %s %s %s\n' % (' '.join(dls[k // 3]), g[2], g[3]))
                 for l in obs:
                     sec = l.split(' | ')
                     if len(sec) >= 2 and sec[1].strip() not in ('-', '') and not l.startswith(('final', 'dl ')):
-                        toks = [e for e in sec[1].split() if not re.match(r'P\d+$', e)]      # P<t>: only for the state oracle
+                        toks = self.set_events(sec[1].split())
                         if toks:
                             fh.write('e ' + ' '.join(toks) + '\n')
                 fh.write('end\n')
@@ -389,6 +415,49 @@ class C11(Check):
             if r:
                 fails.append((i, 0, r))
         return fails
+
+    @staticmethod
+    def set_events(evs):
+        """"Successful Monitor waits never outnumber set() calls": a set() counts once it has passed its critical section
+        (P<t>: the thread executing Monitor::set got the monitor's mutex and stands at the unlock), whether or not the flag
+        changed value - the text counts calls, not flag transitions.  The M<t> tokens (flag false -> true, what the model
+        prints) are kept only in a move without a P (a set() the harness did not recognise by its lock/unlock pattern)."""
+        ps = [e for e in evs if re.match(r'P\d+$', e)]
+        out = []
+        for e in evs:
+            if re.match(r'P\d+$', e):
+                out.append('M' + e[1:])
+            elif re.match(r'M\d+$', e):
+                if not ps:
+                    out.append(e)
+            else:
+                out.append(e)
+        return out
+
+    CRASH_LIMIT = 150
+    HANG_BUDGET = 20
+
+    def run_impl(self, cases, tag='impl'):
+        """a tree on which most cases crash or hang: every crash restarts the harness (vf gives up only after 400 per call) and
+        every hang costs the watchdog time - stop a stream after CRASH_LIMIT crashes (HANG_BUDGET time-outs per run) and report
+        what has been seen; the cases not run are marked `! notrun` (dropped by vf)"""
+        res, crashes = [], {}
+        step = 300
+        hangs = getattr(self, '_hangs', 0)
+        for i in range(0, len(cases), step):
+            if len(crashes) >= self.CRASH_LIMIT or hangs >= self.HANG_BUDGET:
+                res += [['! notrun'] for _ in cases[i:]]
+                log('[C11] stream %s: %d harness crashes (%d time-outs so far in this run), %d cases not run' % (tag, len(crashes), hangs, len(cases) - i))
+                break
+            r, c = run_exe_on_cases(self.exes['impl'], cases[i:i + step], os.path.join(BUILD, self.id, 'run'), tag, is_impl=True,
+                                    per_case_timeout=self.per_case_timeout)
+            res += r
+            for k, v in c.items():
+                crashes[i + k] = v
+                if v[0] == 'timeout':
+                    hangs += 1
+        self._hangs = hangs
+        return res, crashes
 
     @staticmethod
     def disciplined(case):
@@ -435,6 +504,8 @@ class C11(Check):
         mark = {}
         prev_blocked = set()
         last = None
+        cfg = case[0][1:].split() if case and case[0].startswith('@') else []
+        count = int(cfg[2]) if len(cfg) > 2 and re.match(r'\d+$', cfg[2]) else 0     # initial value + signals - successful waits
         for l in obs:
             if l.startswith('! uninit'):
                 return 'a primitive of a library object is used without having been initialised: ' + l
@@ -449,17 +520,17 @@ class C11(Check):
                     continue            # fuel ran out: not quiescent
                 if st.get('sf') == '1' and any(t.startswith('C0:') for t in toks):
                     return 'a Signal waiter is still blocked while the signal is set and nothing else can run'
-                if int(st.get('sem', '0')) > 0 and any(re.match(r'R:sw0', t) for t in toks):
-                    return 'a Semaphore waiter is blocked while the count is positive'
+                if (int(st.get('sem', '0')) > 0 or count > 0) and any(re.match(r'R:sw0', t) for t in toks):
+                    return 'a Semaphore waiter is blocked while the count (initial value + signals - successful waits = %d) is positive' % count
                 for k, t in enumerate(toks):
                     if t.startswith('R:lock2:') and st.get('o2', '-').startswith('%dx' % k):
                         return 'the owner of the Mutex is blocked in lock(): not re-entrant'
                     if t.startswith('R:lock2:') and st.get('o2', '-') == '-':
                         return 'a thread is blocked in Mutex::lock() while the mutex is free'
-                if st.get('mf') == '1' and not any(re.match(r'W\d+:cw1', t) for t in toks):
+                if not any(re.match(r'W\d+:cw1', t) for t in toks):
                     for k, t in enumerate(toks):
                         if t.startswith('C1:') and mark.get(k):
-                            return 'a Monitor waiter that took the monitor before set() is still blocked, the flag is up and nobody was released'
+                            return 'a Monitor waiter that took the monitor before a set() is still blocked and no wait has returned true since that set(): it released nobody'
                 continue
             if len(sec) < 4:
                 continue
@@ -470,9 +541,17 @@ class C11(Check):
                 for e in evs:
                     if re.match(r'r\d+:csenter:', e) and e.rsplit(':', 1)[1] != '1':
                         return 'two threads inside the critical section: ' + e
+            for e in evs:
+                if re.match(r'r\d+:semsignal:', e):
+                    count += 1
+                elif re.match(r'r\d+:(semwait|semwaitt=-?\d+|semtry):1$', e):
+                    count -= 1
             if any(re.match(r'[MP]\d+$', e) for e in evs):       # a set() took effect (P: even if the flag was already up)
                 for k in prev_blocked:
                     mark[k] = True
+            if any(re.match(r'r\d+:(monwait|monwaitt=-?\d+):1$', e) for e in evs):    # a wait returned true: some set() released a waiter
+                for k in list(mark):
+                    mark[k] = False
             now_blocked = {k for k, t in enumerate(toks) if t.startswith('C1:')}
             for k in now_blocked - prev_blocked:
                 mark[k] = False
